@@ -16,8 +16,8 @@ type Profile struct {
 	MinLen    int
 	MaxLen    int
 	Templates []Template
-	TplProb   float64 // probability that a history starts with a template
-	NoiseProb float64 // probability of a noise action between template steps
+	TplProb   float64              // probability that a history starts with a template
+	NoiseProb float64              // probability of a noise action between template steps
 	Extra     func(s *Sim) *Action // check-specific action source (may return nil)
 	ExtraProb float64
 }
